@@ -24,4 +24,10 @@ VARIANTS = [
       "class ACCLoopTrans(ParallelLoopTrans):\n    def validate(self, node, options=None):\n        opts = dict(options or {})\n        opts['force'] = True\n        super().validate(node, options=opts)\n", "fires:C23.R1"),
     V("colouring-inside-omp-allowed", T, "        if node.ancestor(OMPDirective):\n            raise TransformationError(\"Cannot have a loop over colours \"",
       "        if False:\n            raise TransformationError(\"Cannot have a loop over colours \"", "fires:C23.R3"),
+    V("dof-reduction-check-weakened", L, "            if self.kernel.is_reduction:\n",
+      "            if self.kernel.is_reduction and dep_tools:\n", "fires:C23.R5"),
+    V("extra-loop-type-independent", L, "        if self.loop_type == \"colour\":",
+      "        if self.loop_type in (\"colour\", \"colourtiles\"):", "fires:C23.R5"),
+    V("null-loops-also-dependent-twin", L, "        if self.loop_type in [\"null\", \"colours\"]:",
+      "        if self.loop_type in [\"null\", \"colours\"] or self.loop_type is None:", "silent"),
 ]
